@@ -290,6 +290,21 @@ func (tb TemporalBound) String() string {
 		return "_"
 	case NowBound:
 		return "now"
+	case DurationTemporalBound:
+		// The largest unit of the source syntax (d, h, m, s, ms) that represents the value exactly.
+		d := time.Duration(tb.Timestamp)
+		switch {
+		case d%(24*time.Hour) == 0:
+			return fmt.Sprintf("%dd", d/(24*time.Hour))
+		case d%time.Hour == 0:
+			return fmt.Sprintf("%dh", d/time.Hour)
+		case d%time.Minute == 0:
+			return fmt.Sprintf("%dm", d/time.Minute)
+		case d%time.Second == 0:
+			return fmt.Sprintf("%ds", d/time.Second)
+		default:
+			return fmt.Sprintf("%dms", d/time.Millisecond)
+		}
 	default:
 		return "?"
 	}
